@@ -93,6 +93,9 @@ FaultyCheck(n) ==
   \/ \E i \in DOMAIN Evs(n) : Evs(n)[i].e.ev = "jwks" /\ Evs(n)[i].e.res = "err"
   \/ \E i \in DOMAIN Evs(n) : Evs(n)[i].e.ev = "idp" /\ Evs(n)[i].e.answer \in {"fail", "failAfter"}
 
+\* some store call of the check failed (after which the service may not be able to do anything more with the store)
+StoreFaulted(n) == \E i \in DOMAIN Evs(n) : Evs(n)[i].e.ev = "store" /\ (Evs(n)[i].e.err \/ Evs(n)[i].e.cmdFaultHit)
+
 \* the reads of the presented session that returned tokens
 TokReads(n) == SelectSeq(Ops(n, "GetTokenResponse"), LAMBDA x : x.e.sid = Req(n).cookie /\ Good(x) /\ x.e.res.ex)
 
@@ -320,7 +323,8 @@ C11RespCauses(n, r) ==
                     \cup (IF e.issued.expiresIn <= 0 /\ a.atExp # old.atExp THEN {"merge-kept-expiry"} ELSE {})
        ELSE IF e.answer # "ok" \/ Outcome(r) # "ok"
        THEN (IF Outcome(r) = "ok" THEN {"ok-after-failed-refresh"} ELSE {})
-            \cup (IF Outcome(r) = "authorize" /\ Len(rm) = 0 THEN {"stale-session-not-removed"} ELSE {})
+            \* the stale session is removed whatever the denial looks like (a removal that was attempted and failed counts: nothing more can be done)
+            \cup (IF Outcome(r) # "ok" /\ Len(Ops(n, "RemoveSession")) = 0 /\ ~StoreFaulted(n) THEN {"stale-session-not-removed"} ELSE {})
        ELSE {}
 
 ---------------------------------------------------------------------------
